@@ -42,6 +42,7 @@ type ExecCtx struct {
 	loopBinds []map[string]Val
 	paramObjs map[*types.Var]bool // receiver, parameters and results of the unit's function
 	headerNames map[string]bool
+	ghostPos token.Pos
 	lastDynRes []Val
 	instSig  *types.Signature
 	callArgs []Val
@@ -322,12 +323,17 @@ func (c *ExecCtx) readVar(st *State, v *types.Var) Val {
 		}
 		return Val{t, v.Type()}
 	}
-	// unknown (captured or not yet seen): arbitrary but fixed
-	t := u.fresh(v.Name(), srt)
-	if u.captured == nil {
+	// unknown (captured or not yet seen): arbitrary but fixed for the whole unit
+	if u.capturedInit == nil {
+		u.capturedInit = map[*types.Var]*Term{}
 		u.captured = map[string]bool{}
 	}
-	u.captured[t.Name] = true
+	t, seen := u.capturedInit[v]
+	if !seen {
+		t = u.fresh(v.Name(), srt)
+		u.capturedInit[v] = t
+		u.captured[t.Name] = true
+	}
 	st.vars[v] = t
 	c.typeFacts(st, t, v.Type())
 	return Val{t, v.Type()}
@@ -452,6 +458,9 @@ func (c *ExecCtx) nilCheck(st *State, ref *Term, pos token.Pos, what string) {
 	}
 	if ref.Op == "sym" && len(ref.Name) > 6 && ref.Name[:6] == "fnref_" {
 		return
+	}
+	if ref.Op == "sym" && c.u.captured[ref.Name] {
+		return // captured variable of an enclosing function: provenance is checked there
 	}
 	c.u.oblige(st, "nil", Ne(ref, IntLit(0)), pos, "nil "+what)
 }
